@@ -45,11 +45,11 @@ class _BaseDataContainer(ABC):
         # If 'name' already exists in the attribute dict, the corresponding attribute will be overridden
         if name in self._attr and config.display_duplicate_attribute_warning:
             warnings.warn(f"Attribute '{name}' already exists on {self.id}")
+        # the switch only controls the warning: the attribute is overridden in both cases
+        if dense:
+            self._attr[name] = ArrayAttribute(data_type, len(self) if size is None else int(size), elem_size=elem_size, default_value=default_value)
         else:
-            if dense:
-                self._attr[name] = ArrayAttribute(data_type, len(self) if size is None else int(size), elem_size=elem_size, default_value=default_value)
-            else:
-                self._attr[name] = Attribute(data_type, elem_size=elem_size, default_value=default_value)
+            self._attr[name] = Attribute(data_type, elem_size=elem_size, default_value=default_value)
         return self._attr[name]
 
     def register_array_as_attribute(self, name: str, data: np.ndarray, default_value=None):
@@ -63,17 +63,16 @@ class _BaseDataContainer(ABC):
          # If 'name' already exists in the attribute dict, the corresponding attribute will be overridden
         if name in self._attr and config.display_duplicate_attribute_warning: # same rule as create_attribute
             warnings.warn(f"Attribute '{name}' already exists on {self.id}")
-        else:
-            if len(data.shape)==1: 
-                data = data[:,np.newaxis] # change array of size (n,) to size (n,1)
-            try:
-                n_elem = data.shape[0]
-                elem_size = data.shape[1]
-                assert n_elem == len(self)
-            except Exception as e:
-                raise Exception(f"data array has invalid shape {data.shape}")
-            self._attr[name] = ArrayAttribute(type(data[0,0].item()), n_elem, elem_size=elem_size, default_value=default_value)
-            self._attr[name]._data = data
+        if len(data.shape)==1: 
+            data = data[:,np.newaxis] # change array of size (n,) to size (n,1)
+        try:
+            n_elem = data.shape[0]
+            elem_size = data.shape[1]
+            assert n_elem == len(self)
+        except Exception as e:
+            raise Exception(f"data array has invalid shape {data.shape}")
+        self._attr[name] = ArrayAttribute(type(data[0,0].item()), n_elem, elem_size=elem_size, default_value=default_value)
+        self._attr[name]._data = data
         return self._attr[name]
         
     def delete_attribute(self, name: str):
